@@ -80,6 +80,11 @@ func compareLoops(wops, rops []cop, wfn *codecFn) []string {
 			if counted {
 				// reader must bound by the value it just read (directly or via make)
 				okR := i > 0 && rops[i-1].Kind == "V" && (ro.Bound == rops[i-1].Arg || ro.Bound == wo.Bound || strings.HasPrefix(ro.Bound, "len("))
+				if okR && ro.Var != "" && rops[i-1].Var != "" && ro.Var != rops[i-1].Var {
+					// the loop is bounded by something other than the variable the count was read into
+					// (a clamped or otherwise derived length): elements the writer emitted stay unread
+					okR = false
+				}
 				if !okR {
 					bad = append(bad, fmt.Sprintf("reader loop bound %q is not the count read before it", ro.Bound))
 				}
@@ -156,6 +161,7 @@ func runC15(c *Check) {
 		c.Undecided("R0", "anchor:pkg/client", token.NoPos, "package not loaded")
 		return
 	}
+	c.ruleNoMakeLenThenAppend("R5", "client")
 	// ---- R1 tables
 	type mt struct {
 		name string
